@@ -622,7 +622,7 @@ func genFresh(t *rapid.T) Case {
 }
 
 func init() {
-	vf.Register(vf.Sub[Case]{Name: "fresh-process", Quick: 20, Thorough: 400, Gen: genFresh, Check: checkFresh, Floor: 0.6,
+	vf.Register(vf.Sub[Case]{Name: "fresh-process", Quick: 20, Thorough: 250, Gen: genFresh, Check: checkFresh, Floor: 0.6,
 		Rule: "as concurrent-mix, but every round runs in a process of its own (the test binary re-executed on the serialised case, race detector on, its report file read by the child) with the concurrent phase first, and always holds a cutting-planes Solve on threshold 3-SAT with 100..140 variables (Luby restarts: >= 512 conflicts in most) next to 1..5 other tasks (one round in twelve - one in four in the thorough tier - also holds a certified solve whose certificate consumer starts after 3.3 s, so that the solver sits blocked on its channel across the library's 3-second statistics tick): state that the library fills on demand once per process is then first written while other goroutines use the library; non-trivial = the heavy cutting-planes task plus >= 1 other task of a kind that performs search"})
 	vf.Register(vf.Sub[Case]{Name: "concurrent-mix", Quick: 150, Thorough: 2500, Gen: genCase, Check: check, Floor: 0.3, Journal: true,
 		Rule: "k in 2..8 data-independent tasks drawn from: Solve / certified Solve on parity and pigeonhole formulas (tens of conflicts), CountModels, Enumerate with a model channel, DetectAtMostOne + cutting-planes Solve, cutting-planes Solve on threshold 3-SAT with 90..130 variables (>= 512 conflicts, Luby restarts), cutting-planes Solve on 26..34 independent 3-SAT blocks (260..340 variables), a worker that builds and solves 40..200 small problems in a row, a solver that is given 1..5 more clauses (new variables included) before solving; one formula in six of the solve / count / enumerate / append tasks is refuted while it is parsed (opposite unit clauses or an empty clause), ParseOPB + Optimal, Optimal with result channel (the consumer keeps and re-reads the models) on weighted vertex cover, ParseWCNF+Optimal, maxsat.New+Solve, UnsatSubset, MUSDeletion, MUSInsertion, MUSMaxSat, bf.Solve, bf.Dimacs; GOMAXPROCS in {2,4,16}; in half of the rounds the learned-clause limit of all solvers is lowered (3..40) so that clause-database reductions happen inside the runs; in half of the rounds the concurrent phase comes first; every task's outcome (verdict, model validity, count, optimum, certificate validity, extracted subset) is first computed with the tasks run one after the other, then all tasks are started together and must return the same outcome; the binary is built with -race and the detector's report file is read after each phase: any report is a failure; non-trivial = >=2 tasks with >=1 conflict each. The schedule is not owned by the harness: each round is one sample of the interleavings"})
